@@ -4,13 +4,14 @@
 set -e
 SRC=/repo/nexosim/src
 DST=/verif/harness/atomh/src
-mkdir -p $DST/util $DST/channel $DST/executor/task $DST/ports/output
+mkdir -p $DST/util $DST/channel $DST/executor/task $DST/executor/mt_executor $DST/ports/output
 sync_one() { # copy only when different so that cargo does not rebuild needlessly
   if ! cmp -s "$1" "$2"; then cp "$1" "$2"; fi
 }
 for f in util/priority_queue.rs util/indexed_priority_queue.rs util/sync_cell.rs util/task_set.rs \
          util/cached_rw_lock.rs channel/queue.rs executor/task.rs executor/task/cancel_token.rs \
-         executor/task/promise.rs executor/task/runnable.rs executor/task/util.rs; do
+         executor/task/promise.rs executor/task/runnable.rs executor/task/util.rs \
+         executor/mt_executor/injector.rs; do
   sync_one $SRC/$f $DST/$f
 done
 sync_one $SRC/ports/output/broadcaster.rs $DST/ports/output/broadcaster.rs
